@@ -7,7 +7,17 @@ RULE = ("random engines (1-2 exchanges, 1-3 instruments, links mostly healthy) a
         "states `rec_ev` from the INPUT event of the op, not from the model's tick. cancel_orders / close_positions filters vary (none, one or two exchanges, one or two instruments). 8% of steps re-deliver the last record (must be skipped) or deliver a record two ahead (must be rejected). Half the cases end with `runall`: the whole "
         "history through sync_run_with_audit / async_run_with_audit over a real channel into a fresh StateReplicaManager::run; one `run_ev` digest per record received on the channel (spec: the digests "
         "of the history's input events, as many as there are records, then `feed-ended`), and the order clause on the two real final states (`run_rep_sync`, spec 1 under the hypotheses). 1 case in 8 deliberately re-uses client order ids of confirmed "
-        "orders (outside the FreshCids hypothesis: model vs code only, spec silent on orders). Distinct by SHA-1 of op lines; non-trivial when the observations change at least once")
+        "orders (outside the FreshCids hypothesis: model vs code only, spec silent on orders). "
+        "INPUT-DOMAIN FAMILIES (appended after the N random cases, separately seeded, so the random cases are unchanged): (a) 10 directed cases = each way a run ends (feed ended / shutdown / fatal error on a closed "
+        "link) with the terminal event first / in the middle / last, and the EMPTY run (snapshot, then the feed ends at once) on three configurations, each run through both runners once clean and once through every "
+        "TRANSPORT FAULT between channel and replica (`runall <runner> <drop|dup|late|swap>:<first|mid|last|index>`: a record removed, repeated immediately, repeated just before the final record, exchanged with its "
+        "successor); (b) N/2 `wide` cases: 1-3 exchanges with the instruments in any order (first instrument on a non-first exchange), histories of 0-22/40 events, requests on both sides with varied price / quantity "
+        "(fractions, 1e-8, 1e8), for another or an unknown exchange, with an order id, REFUSED by the risk manager (cid >= 5000), commands with 0-3 requests, cancels / reports for orders the engine never heard of, order "
+        "snapshots with varied quantity / price / filled quantity and the in-flight echo `F`, `und:` and non-matching filters, fractional / tiny / huge fills and prices, the replica ops `rep_old k` (the record of k events "
+        "ago re-delivered unchanged: skipped) and `rep_at s` (the last record stamped with sequence s = 0, an old number, far ahead up to u64::MAX), one or two such ops in a row, and 0-2 runs, 60 % of them through a "
+        "transport fault; (c) 2 / 12 `long` cases: 150-400 events without a terminal one, then shutdown, one run through a fault and one clean run. The spec demands `run_rep_sync 1` for clean runs and for faults that only "
+        "repeat records (dup, late); after a lost record only what the model says the replica did with the stream (`run_rep ok|err`) is demanded. "
+        "Distinct by SHA-1 of op lines; non-trivial when the observations change at least once")
 ASSUMPTIONS = [
     "PARTIAL: connectivity, balances, market-data registers and per-instrument tear sheets are updated by the identical update_from_account/market calls on engine and replica; they are modelled in C14/C09/C16/C18 and here compared directly on the real engine vs the real replica (rep_rest_eq), not re-proved",
     "PARTIAL (runtime): the async runner's audit channel is FIFO (assumption); the model's run loop is the common skeleton of sync_run_with_audit and async_run_with_audit",
@@ -16,6 +26,12 @@ ASSUMPTIONS = [
     "orders are compared by TRACKED STATE, not by static fields (review C10-3): `Synced` equates, per (instrument, client order id), the lifecycle state once in-flight markers are set aside (open with the exchange's report / cancel pending / absent); the static fields of an order (quantity, price, kind, exchange) are not part of the replication statement - the engine creates its entry from the strategy's request, the replica from the exchange's report, and no theorem states that the two carry the same quantity / price",
     "observation of the record's event (oracle review C10-H1): `rec_ev` / `run_ev` are digests - kind, requests (exchange, instrument, client order id, side, price, quantity / order id), filter (`und:` filters only by the number of underlyings), trading state, order snapshot (instrument, cid, quantity, price, state), cancel response (ok|err), trade (instrument, side, quantity), price; NOT observed: times, trade / order ids of fills, fees, the payload of balance snapshots and disconnect notices (`other`), kind / time-in-force of requests. `rec_out` (kinds of the Commanded / AlgoOrders outputs in the record) is model-vs-code only; their content is C03's business",
     "`rep_sync` / `run_rep_sync` (oracle review C10-M1) are computed by the harness on the two REAL states (engine vs replica, tracked order states with in-flight markers set aside); the spec demands 1 while EventOk / FreshCids held for the whole history of the case, and is silent afterwards",
+    "INPUT DOMAIN (audit dom2): the engine protocol (shared with C03/C19) fixes what an event can carry: fills always have fee 0, quantity > 0 and strictly increasing times (one tick per event), and are generated only on a flat instrument "
+    "(`fill`) or against the open position (`reduce` = half, `flat` = all): a fill that INCREASES or FLIPS a position cannot be expressed because the shared model's `position` update sets instead of netting; market items are public "
+    "trades only (no L1 / book / candle items), account items never a full account snapshot, balance snapshots always for the exchange's first asset. These classes are legal for the API and inside the quantifier; for them the "
+    "replica runs the identical update_from_account / update_from_market code as the engine, so the per-record comparison would be real-vs-real only - not generated, reported as open",
+    "`rep_at s` with s = replica sequence + 1 would be a FORGED valid successor (not a missing or repeated record): harness and drivers reject it as `bad-op`; the generator never emits it. After a transport fault that loses a record "
+    "(`drop`, `swap`) the replica has applied a prefix of the run: `run_rep_rest_eq` is not printed and `run_rep_sync` is model-vs-code only",
     "the replica starts from the engine's snapshot; a snapshot that itself contains in-flight markers is outside synced_snapshot's hypothesis",
 ]
 SOURCE_FILES = ["barter/src/engine/audit/mod.rs", "barter/src/engine/audit/state_replica.rs", "barter/src/engine/run.rs", "barter/src/engine/mod.rs",
